@@ -197,6 +197,11 @@ structure Facts where
       (`s.beaconKey.CountMatching(capPredicate) - s.expirationTimeBeaconASC.CountMatching(capPredicate)`);
       `no`: `int(capMax)` is passed through unchanged -/
   expiredCountsAll : Tri
+  /-- gateway ShiftMatching: a bucket candidate has to pass the WHOLE filter when it is selected (`filterEval`
+      is never narrowed to `plan.Residual`).  Not needed for the cap bound (a shift only removes records — the
+      `delete` action is always enabled); it selects which records the model's ShiftMatching batch removes:
+      `no` = every candidate collected at RPC arrival that still exists, `yes` = those that still match. -/
+  shiftReevaluatesFilter : Tri
   deriving Repr
 
 def structural (f : Facts) : Bool :=
